@@ -34,7 +34,12 @@ Inductive cr_op :=
 | Cr_Close (h : N)
 | Cr_Replace (q p : N).
 
-Inductive cr_mode := Cr_Death | Cr_Interrupt.
+(* Cr_Partial n: the process stops and of every open handle's buffer only the oldest n bytes still reach the kernel.
+   It covers (a) a process killed in the middle of a write system call that had transferred n bytes and
+   (b) CPython's behaviour when the exception is raised inside a buffer flush: TextIOWrapper / BufferedWriter
+   drop the chunk being written and close() discards what is left.  Cr_Death is Cr_Partial 0 and
+   Cr_Interrupt is Cr_Partial (anything >= the buffer length) as far as the files are concerned. *)
+Inductive cr_mode := Cr_Death | Cr_Interrupt | Cr_Partial (n : nat).
 
 (* ---------- finite maps keyed by N (kept duplicate-free so that traces of 10^5 operations stay small) ---------- *)
 Fixpoint cr_get {A} (m : list (N * A)) (k : N) : option A :=
@@ -51,10 +56,21 @@ Fixpoint cr_del {A} (m : list (N * A)) (k : N) : list (N * A) :=
 
 Definition cr_put {A} (m : list (N * A)) (k : N) (v : A) : list (N * A) := (k, v) :: cr_del m k.
 
+(* File contents are kept newest byte first, so that appending a chunk costs the chunk and not the file
+   (traces of 2 MB payloads are replayed by the driver); [cr_file] gives the content in file order. *)
 Definition cr_fsmap := list (N * cr_bytes).
 Definition cr_handles := list (N * (option N * cr_bytes)).
 
 Record cr_state := cr_mkstate { cr_fs : cr_fsmap; cr_open : cr_handles }.
+
+Definition cr_rev (b : cr_bytes) : cr_bytes := rev_append b [].     (* linear-time List.rev *)
+
+(* a directory given in file order *)
+Definition cr_mkfs (files : list (N * cr_bytes)) : cr_fsmap :=
+  map (fun e : N * cr_bytes => (fst e, cr_rev (snd e))) files.
+
+Definition cr_file (fs : cr_fsmap) (p : N) : option cr_bytes :=
+  match cr_get fs p with Some c => Some (cr_rev c) | None => None end.
 
 Definition cr_init (fs : cr_fsmap) : cr_state := cr_mkstate fs [].
 
@@ -63,7 +79,7 @@ Definition cr_append (fs : cr_fsmap) (target : option N) (b : cr_bytes) : cr_fsm
   match target with
   | None => fs
   | Some p => match cr_get fs p with
-              | Some c => cr_put fs p (c ++ b)
+              | Some c => cr_put fs p (rev_append b c)
               | None => fs
               end
   end.
@@ -115,12 +131,20 @@ Definition cr_run (s : cr_state) (tr : list cr_op) : cr_state := fold_left cr_st
 Definition cr_unwind (s : cr_state) : cr_state :=
   cr_run s (map (fun e : N * (option N * cr_bytes) => Cr_Close (fst e)) (cr_open s)).
 
-(* the files left behind when the process stops after the operations [tr] *)
-Definition cr_crash (m : cr_mode) (tr : list cr_op) (fs : cr_fsmap) : cr_fsmap :=
+Definition cr_unwind_partial (n : nat) (s : cr_state) : cr_state :=
+  cr_run s (map (fun e : N * (option N * cr_bytes) => Cr_Spill (fst e) n) (cr_open s)).
+
+(* the files left behind when the process stops in state [s] *)
+Definition cr_stop (m : cr_mode) (s : cr_state) : cr_fsmap :=
   match m with
-  | Cr_Death => cr_fs (cr_run (cr_init fs) tr)
-  | Cr_Interrupt => cr_fs (cr_unwind (cr_run (cr_init fs) tr))
+  | Cr_Death => cr_fs s
+  | Cr_Interrupt => cr_fs (cr_unwind s)
+  | Cr_Partial n => cr_fs (cr_unwind_partial n s)
   end.
+
+(* ... when it stops after the operations [tr], started on the directory [fs] *)
+Definition cr_crash (m : cr_mode) (tr : list cr_op) (fs : cr_fsmap) : cr_fsmap :=
+  cr_stop m (cr_run (cr_init fs) tr).
 
 (* ---------- the two save procedures ---------- *)
 (* The body is the part the runtime decides: how json.dump chunks the text into f.write calls and when the
@@ -186,4 +210,4 @@ Fixpoint cr_trace_eqb (a b : list cr_op) : bool :=
 
 (* content of path p after a crash at operation index k *)
 Definition cr_crash_at (m : cr_mode) (tr : list cr_op) (k : nat) (fs : cr_fsmap) (p : N) : option cr_bytes :=
-  cr_get (cr_crash m (firstn k tr) fs) p.
+  cr_file (cr_crash m (firstn k tr) fs) p.
